@@ -165,6 +165,17 @@ def extra_instances():
     add(Mol([Token(["OC", _imp("$", w=0)]), S("[$]", ["[$]CC[$]"], ["[$][H]"], "[$]", g(30)),
              Token([_imp("$"), "CO", _imp("$", w=0)]), S("[$]", ["[$]CS[$]"], ["[$]F"], "[$]", g(40)),
              Token([_imp("$"), "N"])], name="implicit-connector-dollar"))
+    # the only compatible candidate has weight zero while an incompatible descriptor of the same list has another weight
+    add(M(S("[]", ["[<]CC([>])c1ccccc1"], ["[<|0|][H]", "[>]N"], "[]", g(110)), name="zero-sole-candidate"))
+    # a descriptor in a branch on an atom whose chain continues with a double bond; a list with weight on an end group
+    add(M(S("[]", ["[$]CC([$])=O", "CC([$])=NCC[$]"], ["[$][H]"], "[]", g(60)), name="branch-descriptor-then-double-bond"))
+    add(M(S("[]", ["[$|1 1 0 2|]CC[$|1 1 0 2|]"], ["[$][H]", "[$]O"], "[]", g(50)), name="list-with-endgroup-entry"))
+    # a prefix whose open descriptor is a double / triple bond; the left terminal is written without bond symbol (as the library prints it)
+    add(M("CC=[>]", S("[>]", ["[<]=CC[>]", "[<]CC=[>]"], ["[<]F", "[<]=O"], "[]", g(60)), name="double-bond-prefix"))
+    add(M("C#[>]", S("[>]", ["[<]#CC[>]", "[<]CC[>]"], ["[<]F"], "[]", g(50)), name="triple-bond-prefix"))
+    # the same fragment written in two atom orders inside one object (descriptors address atoms by position in their own text)
+    add(M("N[>]", S("[>]", ["[<]CCO[>]", "[<]OCC[>]"], ["[<]F"], "[]", g(100)), name="same-fragment-two-orders"))
+    add(M("N[>]", S("[>]", ["[<]CC(C)[>]", "[<]C(C)C[>]"], ["[<]F"], "[]", g(90)), name="same-fragment-two-orders-carbon"))
     # two $-objects in a row, both with end groups (an end group's descriptor is compatible with the right terminal)
     add(M("C[$]", S("[$]", ["[$]CC[$]"], ["[$][H]"], "[$]", g(30)), S("[$]", ["[$]CO[$|0.5|]", "[$]CS[$]"], ["[$]F"], "[$]", g(40)), "[$]N",
           name="dollar-diblock-endgroups"))
